@@ -232,6 +232,168 @@ Definition single_step (c : cfg) (s : ps) (e : ev) : option ps :=
   | _ => None
   end.
 
+(* ---- multi producer: writer threads (next / write / publish) and the main thread (join, drain) ------
+   The inline locations of the sequencer (high and low watermark) are identified by first use: the first
+   inline location a writer loads in next() is the high watermark, the first one loaded in publish() the
+   low watermark; bitmap words are bound word index -> address at first use and must stay consistent. *)
+Record ws := mkWs {
+  wpc : Z; w_todo : list Z; w_b : Z;           (* batch size *)
+  w_hw : Z; w_lo : Z; w_hi : Z; w_i : Z;       (* observed high watermark, claimed range, running index *)
+  w_low : Z; w_good : Z; w_cur : Z;            (* publish: low watermark read, good_to_release, current *)
+  w_rem : list (Z * Z); w_min : Z
+}.
+Definition ws0 (batches : list Z) : ws := mkWs 0 batches 0 0 0 0 0 0 0 0 [] (-1).
+
+Record binds := mkB { b_hw : Z; b_lw : Z; b_words : list (Z * Z) }.     (* -1 = not yet bound *)
+
+Definition bit_of (N n : Z) : Z := Z.shiftl 1 (Z.land (Z.land n (N - 1)) 63).
+Definition word_of (N n : Z) : Z := Z.shiftr (Z.land n (N - 1)) 6.
+Definition ones64 : Z := 18446744073709551615.
+
+Fixpoint lookupw (l : list (Z * Z)) (w : Z) : option Z :=
+  match l with [] => None | (k, a) :: t => if k =? w then Some a else lookupw t w end.
+
+(* the address of bitmap word w: bound at first use; later uses must hit the same address, distinct words
+   distinct addresses 8 bytes apart per index *)
+Definition bind_word (b : binds) (w addr : Z) : option binds :=
+  match lookupw (b_words b) w with
+  | Some a => if a =? addr then Some b else None
+  | None =>
+      if forallb (fun p : Z * Z => (snd p - addr) =? 8 * (fst p - w)) (b_words b)
+      then Some (mkB (b_hw b) (b_lw b) ((w, addr) :: b_words b)) else None
+  end.
+
+Definition bind_inline (cur off : Z) : option Z := if cur <? 0 then Some off else if cur =? off then Some cur else None.
+
+Definition wgoto (t : ws) (p : Z) : ws :=
+  mkWs p (w_todo t) (w_b t) (w_hw t) (w_lo t) (w_hi t) (w_i t) (w_low t) (w_good t) (w_cur t) (w_rem t) (w_min t).
+
+(* control points of publish that consume no event *)
+Definition after_scan (t : ws) : ws :=                    (* the scan loop ended *)
+  if w_low t <? w_good t
+  then mkWs 11 (w_todo t) (w_b t) (w_hw t) (w_lo t) (w_hi t) (w_low t) (w_low t) (w_good t) (w_cur t) [] (-1)   (* unset low..=good *)
+  else wgoto t 18.
+Definition scan (t : ws) : ws := if w_good t <? w_hi t then wgoto t 9 else after_scan t.
+
+Definition writer_step (c : cfg) (t : ws) (b : binds) (e : ev) : option (ws * binds) :=
+  let N := cN c in
+  let ret (t' : ws) := Some (t', b) in
+  match wpc t with
+  | 0 => if iskind e kTSTART then ret (wgoto t 1) else None
+  | 1 =>
+      match w_todo t with
+      | bs :: rest => if (iskind e kWCALL) && (e_a e =? bs)
+                      then ret (mkWs 2 rest bs 0 0 0 0 0 0 0 [] (-1)) else None
+      | [] => if iskind e kTEND then ret (wgoto t 30) else None
+      end
+  (* next(count): loop { hw = high_watermark.get(); if has_capacity(hw, count) { if CAS(hw, hw+count) return } } *)
+  | 2 => if (e_kind e =? kLOAD) && (e_cls e =? cINLINE) && (e_ord e =? oACQ) then
+           match bind_inline (b_hw b) (e_off e) with
+           | Some o => Some (mkWs 3 (w_todo t) (w_b t) (e_obs e) 0 0 0 0 0 0 (gating c) (-1), mkB o (b_lw b) (b_words b))
+           | None => None
+           end
+         else None
+  | 3 =>
+      match w_rem t with
+      | (cl, off) :: rest =>
+          if is e kLOAD cl off oACQ then
+            let m := minacc (w_min t) (e_obs e) in
+            match rest with
+            | [] => let used := Z.max (w_hw t - m) 0 in           (* saturating_sub *)
+                    ret (mkWs (if used + w_b t <? N then 4 else 2) (w_todo t) (w_b t) (w_hw t) 0 0 0 0 0 0 [] (-1))
+            | _ => ret (mkWs 3 (w_todo t) (w_b t) (w_hw t) 0 0 0 0 0 0 rest m)
+            end
+          else None
+      | [] => None
+      end
+  | 4 => if (e_kind e =? kCAS) && (e_cls e =? cINLINE) && (e_off e =? b_hw b) && (e_ord e =? oSEQ) && (e_ord2 e =? oACQ)
+            && (e_a e =? w_hw t) && (e_b e =? w_hw t + w_b t)
+         then (if e_ok e =? 1 then ret (mkWs 5 (w_todo t) (w_b t) (w_hw t) (w_hw t + 1) (w_hw t + w_b t) (w_hw t + 1) 0 0 0 [] (-1))
+               else ret (wgoto t 2))
+         else None
+  | 5 => if (e_kind e =? kGETMUT) && (e_cls e =? cSLOT) && (e_off e =? (w_i t) mod N) then ret (wgoto t 6) else None
+  | 6 => if (iskind e kFILL) && (e_a e =? w_i t) then
+           (if w_i t =? w_hi t then ret (mkWs 7 (w_todo t) (w_b t) (w_hw t) (w_lo t) (w_hi t) (w_lo t) 0 0 0 [] (-1))
+            else ret (mkWs 5 (w_todo t) (w_b t) (w_hw t) (w_lo t) (w_hi t) (w_i t + 1) 0 0 0 [] (-1)))
+         else None
+  (* publish(lo, hi): set the bits *)
+  | 7 => if (e_kind e =? kFOR) && (e_ord e =? oSEQ) && (e_a e =? bit_of N (w_i t)) then
+           match bind_word b (word_of N (w_i t)) (e_off e) with
+           | Some b' => Some ((if w_i t =? w_hi t then wgoto t 8
+                               else mkWs 7 (w_todo t) (w_b t) (w_hw t) (w_lo t) (w_hi t) (w_i t + 1) 0 0 0 [] (-1)), b')
+           | None => None
+           end
+         else None
+  | 8 => if (e_kind e =? kLOAD) && (e_cls e =? cINLINE) && (e_ord e =? oACQ) && negb (e_off e =? b_hw b) then
+           match bind_inline (b_lw b) (e_off e) with
+           | Some o => Some (scan (mkWs 9 (w_todo t) (w_b t) (w_hw t) (w_lo t) (w_hi t) 0 (e_obs e) (e_obs e) 0 [] (-1)), mkB (b_hw b) o (b_words b))
+           | None => None
+           end
+         else None
+  (* while good < hi { if !is_set(good + 1) break; good += 1 } *)
+  | 9 => if (e_kind e =? kLOAD) && (e_ord e =? oSEQ) then
+           match bind_word b (word_of N (w_good t + 1)) (e_off e) with
+           | Some b' =>
+               if Z.land (e_obs e) (bit_of N (w_good t + 1)) =? 0
+               then Some (after_scan t, b')
+               else Some (scan (mkWs 9 (w_todo t) (w_b t) (w_hw t) (w_lo t) (w_hi t) (w_i t) (w_low t) (w_good t + 1) 0 [] (-1)), b')
+           | None => None
+           end
+         else None
+  (* for n in low..=good { unset(n) } *)
+  | 11 => if (e_kind e =? kFAND) && (e_ord e =? oSEQ) && (e_a e =? ones64 - bit_of N (w_i t)) then
+            match bind_word b (word_of N (w_i t)) (e_off e) with
+            | Some b' => Some ((if w_i t =? w_good t
+                                then mkWs 12 (w_todo t) (w_b t) (w_hw t) (w_lo t) (w_hi t) 0 (w_low t) (w_good t) (w_low t) [] (-1)
+                                else mkWs 11 (w_todo t) (w_b t) (w_hw t) (w_lo t) (w_hi t) (w_i t + 1) (w_low t) (w_good t) 0 [] (-1)), b')
+            | None => None
+            end
+          else None
+  (* current = low; while !cursor.CAS(current, good) { current = cursor.get(); if current > good break } *)
+  | 12 => if (e_kind e =? kCAS) && (e_cls e =? cPCUR) && (e_ord e =? oSEQ) && (e_ord2 e =? oACQ)
+             && (e_a e =? w_cur t) && (e_b e =? w_good t)
+          then ret (wgoto t (if e_ok e =? 1 then 14 else 13)) else None
+  | 13 => if is e kLOAD cPCUR 0 oACQ then
+            ret (mkWs (if w_good t <? e_obs e then 14 else 12) (w_todo t) (w_b t) (w_hw t) (w_lo t) (w_hi t) 0 (w_low t) (w_good t) (e_obs e) [] (-1))
+          else None
+  | 14 => if (e_kind e =? kSTORE) && (e_cls e =? cINLINE) && (e_off e =? b_lw b) && (e_ord e =? oREL) && (e_a e =? w_good t)
+          then ret (wgoto t (if cblock c then 15 else 18)) else None
+  | 15 => if iskind e kLOCK then ret (wgoto t 16) else None
+  | 16 => if iskind e kNOTIFY then ret (wgoto t 17) else None
+  | 17 => if iskind e kUNLOCK then ret (wgoto t 18) else None
+  | 18 => if iskind e kWRET then ret (wgoto t 1) else None
+  | _ => None
+  end.
+
+(* main thread of a multi-producer pipeline: join the writers, drain (no Drop impl), join the handlers *)
+Definition multimain_step (c : cfg) (t : ts) (e : ev) : option ts :=
+  match pc t with
+  | 0 => guard (iskind e kTSTART) (goto t 1)
+  | 1 => guard (iskind e kJOINED) (goto t 2)
+  | 2 => guard (iskind e kDCALL) (goto t 3)
+  | 3 => guard (is e kLOAD cPCUR 0 oACQ) (goto (set4 (setrem (set1 t (e_obs e)) (gating c)) (-1)) 4)
+  | 4 =>
+      match rem t with
+      | (cl, off) :: rest =>
+          if is e kLOAD cl off oACQ then
+            let t' := setrem (set4 t (minacc (r4 t) (e_obs e))) rest in
+            match rest with
+            | [] => if r4 t' <? r1 t then Some (goto (set4 (setrem t' (gating c)) (-1)) (if cblock c then 5 else 4))
+                    else Some (goto t' 8)
+            | _ => Some t'
+            end
+          else None
+      | [] => None
+      end
+  | 5 | 6 | 7 => sig_step c t e 5 4
+  | 8 => guard (is e kBSTORE 4 0 oSEQ && (e_a e =? 1)) (goto t (if cblock c then 9 else 12))
+  | 9 | 10 | 11 => sig_step c t e 9 12
+  | 12 => guard (iskind e kDRET) (goto t 13)
+  | 13 => guard (iskind e kJOINED) (goto t 14)
+  | 14 => guard (iskind e kTEND) (goto t 15)
+  | _ => None
+  end.
+
 (* ---- whole-trace validation (single-producer pipelines) ------------------------------------------ *)
 Fixpoint update {A} (l : list A) (i : nat) (x : A) : list A :=
   match l, i with
@@ -240,7 +402,7 @@ Fixpoint update {A} (l : list A) (i : nat) (x : A) : list A :=
   | a :: t, S j => a :: update t j x
   end.
 
-Record vstate := mkV { v_main : ps; v_handlers : list ts; v_mem : list ((Z * Z) * Z) }.
+Record vstate := mkV { v_main : ps; v_handlers : list ts; v_mem : list ((Z * Z) * Z); v_writers : list ws; v_binds : binds }.
 
 Definition ts0 : ts := mkTs 0 0 0 0 0 [] [].
 
@@ -258,6 +420,13 @@ Definition mem_check (m : list ((Z * Z) * Z)) (e : ev) : option (list ((Z * Z) *
   else if e_kind e =? kSTORE then Some (mem_set m k (e_a e))
   else if e_kind e =? kBLOAD then (if e_obs e =? mem_get m (4, 0) then Some m else None)
   else if e_kind e =? kBSTORE then Some (mem_set m (4, 0) (e_a e))
+  else if e_kind e =? kCAS then
+    (if e_obs e =? mem_get m k then
+       (if e_ok e =? 1 then (if e_a e =? e_obs e then Some (mem_set m k (e_b e)) else None)
+        else (if e_a e =? e_obs e then None else Some m))
+     else None)
+  else if e_kind e =? kFOR then (if e_obs e =? mem_get m k then Some (mem_set m k (Z.lor (e_obs e) (e_a e))) else None)
+  else if e_kind e =? kFAND then (if e_obs e =? mem_get m k then Some (mem_set m k (Z.land (e_obs e) (e_a e))) else None)
   else Some m.
 
 Definition vstep (c : cfg) (v : vstate) (e : ev) : option vstate :=
@@ -265,12 +434,27 @@ Definition vstep (c : cfg) (v : vstate) (e : ev) : option vstate :=
   | None => None
   | Some m =>
       if e_tid e =? 0 then
-        match single_step c (v_main v) e with Some p => Some (mkV p (v_handlers v) m) | None => None end
-      else
+        (if cmulti c then
+           match multimain_step c (pt (v_main v)) e with
+           | Some t' => Some (mkV (mkPs t' 0 0) (v_handlers v) m (v_writers v) (v_binds v))
+           | None => None
+           end
+         else
+           match single_step c (v_main v) e with Some p => Some (mkV p (v_handlers v) m (v_writers v) (v_binds v)) | None => None end)
+      else if e_tid e <=? nhandlers c then
         let h := Z.to_nat (e_tid e - 1) in
         match nth_error (v_handlers v) h with
         | Some t => match handler_step c h t e with
-                    | Some t' => Some (mkV (v_main v) (update (v_handlers v) h t') m)
+                    | Some t' => Some (mkV (v_main v) (update (v_handlers v) h t') m (v_writers v) (v_binds v))
+                    | None => None
+                    end
+        | None => None
+        end
+      else
+        let w := Z.to_nat (e_tid e - 1 - nhandlers c) in
+        match nth_error (v_writers v) w with
+        | Some t => match writer_step c t (v_binds v) e with
+                    | Some (t', b') => Some (mkV (v_main v) (v_handlers v) m (update (v_writers v) w t') b')
                     | None => None
                     end
         | None => None
@@ -286,7 +470,8 @@ Fixpoint vrun (c : cfg) (v : vstate) (l : list ev) (i : Z) : Z :=
 
 Definition vinit (c : cfg) : vstate :=
   mkV (mkPs (settodo ts0 (match cwriters c with w :: _ => w | [] => [] end)) 0 0)
-      (map (fun _ => ts0) (concat (cstages c))) [].
+      (map (fun _ => ts0) (concat (cstages c))) []
+      (if cmulti c then map ws0 (cwriters c) else []) (mkB (-1) (-1) []).
 
 (* ---- integer coding: N multi block drain nstages (nh kind^nh)^nstages nwriters (nb size^nb)^nwriters then 10 ints per event *)
 Fixpoint take_lists (n : nat) (l : list Z) : list (list Z) * list Z :=
@@ -315,8 +500,7 @@ Definition ring_validate_entry (l : list Z) : list Z :=
       | nw :: rest2 =>
           let '(writers, evs) := take_lists (Z.to_nat nw) rest2 in
           let c := mkCfg n (negb (multi =? 0)) (negb (block =? 0)) stages writers (negb (drain =? 0)) in
-          if cmulti c then [(-2)%Z]                       (* multi-producer traces: not validated by this model *)
-          else [vrun c (vinit c) (events_of (length evs) evs) 0]
+          [vrun c (vinit c) (events_of (length evs) evs) 0]
       | [] => [(-3)%Z]
       end
   | _ => [(-3)%Z]
